@@ -26,7 +26,7 @@ ASSUMPTIONS = ["Rust semantics of closures/Vec/usize as modelled; user closures 
                "newton_sys(jac)_affine_partial take the soundness of solve_basic (C01 solve_basic_sound) as an explicit premise",
                "solve takes &self and Newton has no interior mutability (checked at run time: parameters() and a second call)",
                "convergence is proved only for affine functions and x^2-c over R; other families are searched"]
-UNPROVED = ["convergence (Ok within the basin, |x - root| of the order of tol) beyond the affine and x^2-c families: search only",
+UNPROVED = ["round two (package newton2): convergence is now proved over R for general differentiable scalar f with 0 < m <= |f'| <= Mb and Lipschitz f' (newton_ok_near_root_general, newton_basin_ok), for convex increasing f (newton_monotone), x^2-c from every x0 > 0, affine systems of any dimension over any field without premise (newton_sys_affine), decoupled nonlinear systems of any dimension (both Jacobian variants). NOT proved: coupled nonlinear systems of dimension > 1, nonlinear complex functions (search only)",
             "floating-point rounding inside one Newton step: the float instance of the model is compared bit for bit with the implementation (tie)",
             "configuration untouched / repeated calls identical are run-time observations (a pure function satisfies them by construction)"]
 
